@@ -67,7 +67,7 @@ theorem ModeOK.transfer {off : Bool} {m m' : Mgr} (h : ModeOK off m) (hl : m'.la
 ledger `ext` of references held from outside: the manager invariant, the name maps (C14), exact
 counts (C06), between two calls (`ctx = false`), no recorded iteration schedule, no registered
 roots (`autoref` never sets `bdd.roots`), and the mode -/
-structure MInv (off : Bool) (ext : Nat → Nat) (m : Mgr) : Prop where
+structure AutoMInv (off : Bool) (ext : Nat → Nat) (m : Mgr) : Prop where
   inv : Inv m
   order : OrderOK m.tbl
   counts : RefExact m ext
@@ -77,20 +77,20 @@ structure MInv (off : Bool) (ext : Nat → Nat) (m : Mgr) : Prop where
   mode : ModeOK off m
 
 /-- a change of `_ref` alone -/
-theorem MInv.setRef {ext ext' : Nat → Nat} {m : Mgr} (h : MInv off ext m) (ref' : TreeMap Nat Nat)
+theorem AutoMInv.setRef {ext ext' : Nat → Nat} {m : Mgr} (h : AutoMInv off ext m) (ref' : TreeMap Nat Nat)
     (hi : Inv { m with ref := ref' }) (hr : RefExact { m with ref := ref' } ext') :
-    MInv off ext' { m with ref := ref' } :=
+    AutoMInv off ext' { m with ref := ref' } :=
   ⟨hi, h.order, hr, h.ctx, h.sched, h.roots, h.mode⟩
 
-theorem MInv.extCongr {ext ext' : Nat → Nat} {m : Mgr} (h : MInv off ext m)
-    (he : ∀ k, ext k = ext' k) : MInv off ext' m :=
+theorem AutoMInv.extCongr {ext ext' : Nat → Nat} {m : Mgr} (h : AutoMInv off ext m)
+    (he : ∀ k, ext k = ext' k) : AutoMInv off ext' m :=
   ⟨h.inv, h.order, h.counts.extCongr he, h.ctx, h.sched, h.roots, h.mode⟩
 
-theorem MInv.reorderInv {ext : Nat → Nat} {m : Mgr} (h : MInv off ext m) : ReorderInv ext m :=
+theorem AutoMInv.reorderInv {ext : Nat → Nat} {m : Mgr} (h : AutoMInv off ext m) : ReorderInv ext m :=
   ⟨h.inv, h.order, h.counts, Or.inl h.ctx, fun r hr => by rw [h.roots] at hr; cases hr⟩
 
 structure AInv (off : Bool) (a : AMgr) : Prop where
-  minv : MInv off (hext a) a.m
+  minv : AutoMInv off (hext a) a.m
   hmem : ∀ (h : Nat) (u : Int), a.handles[h]? = some u → a.m.tbl.Mem u
 
 theorem AInv.inv {a : AMgr} (h : AInv off a) : Inv a.m := h.minv.inv
@@ -221,8 +221,8 @@ outcome (a result or an exception): the manager invariant and the count equation
 to the *same* external references are kept, externally referenced nodes survive with their
 meaning, and (mode `off = true`) reordering stays disabled -/
 def CoreKeepsAt (off : Bool) (m : Mgr) (op : M α) : Prop :=
-  ∀ (ext : Nat → Nat), MInv off ext m → ∀ r m', op m = (r, m') →
-    MInv off ext m' ∧ HeldExt m.tbl m'.tbl ext
+  ∀ (ext : Nat → Nat), AutoMInv off ext m → ∀ r m', op m = (r, m') →
+    AutoMInv off ext m' ∧ HeldExt m.tbl m'.tbl ext
 
 /-- … in every start state -/
 structure CoreKeeps (off : Bool) (op : M α) : Prop where
@@ -316,7 +316,7 @@ theorem AKeeps.bind_read {x : AM α} {f : α → AM β} {h : Nat} (hx : ARead x)
       exact hf v a1 hi hfr r a' he
 
 /-- the state after a core operation that satisfies `CoreKeeps` -/
-theorem AInv.after_core {a : AMgr} (hi : AInv off a) {m' : Mgr} (h1 : MInv off (hext a) m')
+theorem AInv.after_core {a : AMgr} (hi : AInv off a) {m' : Mgr} (h1 : AutoMInv off (hext a) m')
     (h3 : HeldExt a.m.tbl m'.tbl (hext a)) :
     AInv off { a with m := m' } ∧
     (∀ (j : Nat) (u : Int), a.handles[j]? = some u →
@@ -807,7 +807,7 @@ theorem configure_keeps (r : Option Bool) (hr : off = true → r ≠ some true) 
     CoreKeeps off (configure r) := by
   refine ⟨fun m ext hm r' m' he => ?_⟩
   have key : ∀ l, ModeOK off { m with lastLen := l } →
-      MInv off ext { m with lastLen := l } ∧ HeldExt m.tbl ({ m with lastLen := l } : Mgr).tbl ext :=
+      AutoMInv off ext { m with lastLen := l } ∧ HeldExt m.tbl ({ m with lastLen := l } : Mgr).tbl ext :=
     fun l hl => ⟨⟨⟨hm.inv.wf, hm.inv.pred, hm.inv.freeGe, hm.inv.free, hm.inv.refOne, hm.inv.refDom,
         hm.inv.cache⟩, hm.order, ⟨hm.counts.dom, hm.counts.cnt, hm.counts.extZero⟩, hm.ctx, hm.sched,
         hm.roots, hl⟩, HeldExt.refl _ _⟩
